@@ -138,7 +138,7 @@ pub fn shrink_case(c: &Case, still_fails: &mut dyn FnMut(&Case) -> bool) -> Case
       if !c2.script.is_empty() && still_fails(&c2) { cur = c2; improved = true; } else { i += 1; }
     }
     for ti in 0..cur.trees.len() {
-      if cur.trees.len() > 1 && (cur.note.starts_with("C06") || cur.note.starts_with("C13")) { continue } // composite and children / reference and variants must stay in step
+      if cur.trees.len() > 1 && (cur.note.starts_with("C06") || cur.note.starts_with("C09") || cur.note.starts_with("C13")) { continue } // composite and children / reference and variants must stay in step
       let mut progress = true;
       while progress && budget > 0 {
         progress = false;
